@@ -57,18 +57,24 @@ pub fn builtin_equals_ignore_case(str1: String, str2: String) -> bool {
 }
 
 #[builtin]
-pub fn builtin_splitlimit(str: IStr, c: IStr, maxsplits: Either![usize, M1]) -> ArrValue {
+pub fn builtin_splitlimit(str: IStr, c: IStr, maxsplits: Either![usize, M1]) -> Result<ArrValue> {
 	use Either2::*;
-	match maxsplits {
+	if c.is_empty() {
+		bail!("std.splitLimit second param cannot have length 0");
+	}
+	Ok(match maxsplits {
 		A(n) => str.splitn(n + 1, &c as &str).map(Val::string).collect(),
 		B(_) => str.split(&c as &str).map(Val::string).collect(),
-	}
+	})
 }
 
 #[builtin]
-pub fn builtin_splitlimitr(str: IStr, c: IStr, maxsplits: Either![usize, M1]) -> ArrValue {
+pub fn builtin_splitlimitr(str: IStr, c: IStr, maxsplits: Either![usize, M1]) -> Result<ArrValue> {
 	use Either2::*;
-	match maxsplits {
+	if c.is_empty() {
+		bail!("std.splitLimitR second param cannot have length 0");
+	}
+	Ok(match maxsplits {
 		A(n) =>
 		// rsplitn does not implement DoubleEndedIterator so collect into
 		// a temporary vec
@@ -81,11 +87,11 @@ pub fn builtin_splitlimitr(str: IStr, c: IStr, maxsplits: Either![usize, M1]) ->
 				.collect()
 		}
 		B(_) => str.split(&c as &str).map(Val::string).collect(),
-	}
+	})
 }
 
 #[builtin]
-pub fn builtin_split(str: IStr, c: IStr) -> ArrValue {
+pub fn builtin_split(str: IStr, c: IStr) -> Result<ArrValue> {
 	use Either2::*;
 	builtin_splitlimit(str, c, B(M1))
 }
